@@ -106,6 +106,7 @@ func checkC19(r *Result) {
 	r.rule("GOV-WRITERS", "governance-owned collections are written only from authority handlers and genesis")
 	r.rule("AUTH-WIRING", "in app.New the authority passed to each keeper constructor is the gov module address")
 	r.rule("SIGNER-FRAME", "the account debited or re-keyed at a sink derives only from the message's signer field (or a named exception)")
+	r.rule("MSG-ASSIGN", "registry handlers assign a field of the message they process only before its first read")
 	r.rule("NO-REREGISTER", "RegisterSpec writes a spec only under 'not yet registered', and guard, write and read normalise the key identically")
 
 	msgs, rpcs, err := parseTxProtos(P.RepoDir)
@@ -383,6 +384,26 @@ func checkC19(r *Result) {
 	// NO-REREGISTER
 	checkNoReregister(r)
 
+	// MSG-ASSIGN: value descriptors name a load through the message pointer by its access path, so a handler
+	// that assigns a message field after having read it makes two "equal" reads differ. In the registry
+	// handlers every assignment to a message field comes before the first read of that field (normalise, then use).
+	{
+		n := 0
+		for _, fn := range P.RepoFuncs {
+			name := FuncName(fn)
+			if !strings.HasPrefix(name, "(x/registry/keeper.msgServer).") || fn.Parent() != nil {
+				continue
+			}
+			n++
+			r.fn(name)
+			late := msgFieldWritesAfterRead(P, fn, "")
+			r.check(len(late) == 0, "MSG-ASSIGN", name+" # message fields are assigned only before they are first read", P.Pos(fn.Pos()), strings.Join(late, "; "))
+		}
+		if n == 0 {
+			r.broken("no registry message handlers found")
+		}
+	}
+
 	// SIGNER-FRAME
 	checkSignerFrame(r, handlerInfo)
 
@@ -390,6 +411,7 @@ func checkC19(r *Result) {
 	r.minCount("AUTH-WIRING", 6)
 	r.minCount("SIGNER-FRAME", 8)
 	r.minCount("NO-REREGISTER", 3)
+	r.minCount("MSG-ASSIGN", 2)
 }
 
 func checkNoReregister(r *Result) {
@@ -419,19 +441,10 @@ func checkNoReregister(r *Result) {
 		}
 	}
 	// the descriptors of two loads of msg.QueryType are equal even if the field is assigned in between:
-	// the handler must not rewrite the field it tests and then uses as the key
+	// the handler must not rewrite the field after it has tested it
 	{
-		var rewrites []string
-		for _, b := range rs.Blocks {
-			for _, in := range b.Instrs {
-				if st, ok := in.(*ssa.Store); ok {
-					if fa, ok := st.Addr.(*ssa.FieldAddr); ok && fieldName(fa.X.Type(), fa.Field) == "x/registry/types.MsgRegisterSpec.QueryType" {
-						rewrites = append(rewrites, P.Pos(st.Pos()))
-					}
-				}
-			}
-		}
-		r.check(len(rewrites) == 0, "NO-REREGISTER", "(x/registry/keeper.msgServer).RegisterSpec # the query type is not rewritten between the existence test and the write", P.Pos(rs.Pos()), fmt.Sprintf("assignments to msg.QueryType: %v", rewrites))
+		rewrites := msgFieldWritesAfterRead(P, rs, "QueryType")
+		r.check(len(rewrites) == 0, "NO-REREGISTER", "(x/registry/keeper.msgServer).RegisterSpec # the query type is not rewritten between the existence test and the write", P.Pos(rs.Pos()), fmt.Sprintf("assignments to msg.QueryType after a read: %v", rewrites))
 	}
 	r.check(hasKey != "" && hasKey == setKey, "NO-REREGISTER", "(x/registry/keeper.msgServer).RegisterSpec # existence test and write use the same query type value", P.Pos(rs.Pos()), "tested: "+clip(hasKey, 100)+" ; written: "+clip(setKey, 100))
 	// key normalisation of the three keeper accessors, as a function of their query-type parameter
@@ -849,4 +862,111 @@ func checkSignerFrame(r *Result, handlerInfo map[*ssa.Function]*msgInfo) {
 			}
 		}
 	}
+}
+
+// msgFieldWritesAfterRead lists the stores to a field path of a message parameter of fn that can be preceded
+// by a load of the same path (or of an enclosing / enclosed path), other than the loads feeding the stored value.
+// only: restrict to paths whose first component is this name ("" = all).
+func msgFieldWritesAfterRead(P *Prog, fn *ssa.Function, only string) []string {
+	pathOf := func(v ssa.Value) (ssa.Value, []string) {
+		var path []string
+		root := v
+		for {
+			f, ok := root.(*ssa.FieldAddr)
+			if !ok {
+				break
+			}
+			fname := fieldName(f.X.Type(), f.Field)
+			path = append([]string{fname[strings.LastIndex(fname, ".")+1:]}, path...)
+			root = f.X
+		}
+		return root, path
+	}
+	isMsgParam := func(root ssa.Value) bool {
+		if _, ok := root.(*ssa.Parameter); !ok {
+			return false
+		}
+		return strings.Contains(typeShort(root.Type()), "/types.Msg")
+	}
+	overlaps := func(a, b []string) bool {
+		for i := 0; i < len(a) && i < len(b); i++ {
+			if a[i] != b[i] {
+				return false
+			}
+		}
+		return true
+	}
+	type acc struct {
+		in   ssa.Instruction
+		root ssa.Value
+		path []string
+		blk  *ssa.BasicBlock
+		idx  int
+	}
+	var loads, stores []acc
+	for _, b := range fn.Blocks {
+		for i, in := range b.Instrs {
+			switch x := in.(type) {
+			case *ssa.Store:
+				if root, path := pathOf(x.Addr); len(path) > 0 && isMsgParam(root) {
+					stores = append(stores, acc{in, root, path, b, i})
+				}
+			case *ssa.UnOp:
+				if x.Op == token.MUL {
+					if root, path := pathOf(x.X); len(path) > 0 && isMsgParam(root) {
+						loads = append(loads, acc{in, root, path, b, i})
+					}
+				}
+			}
+		}
+	}
+	reach := func(from, to *ssa.BasicBlock) bool { // a path of at least one edge
+		seen := map[*ssa.BasicBlock]bool{}
+		work := append([]*ssa.BasicBlock{}, from.Succs...)
+		for len(work) > 0 {
+			b := work[len(work)-1]
+			work = work[:len(work)-1]
+			if seen[b] {
+				continue
+			}
+			seen[b] = true
+			if b == to {
+				return true
+			}
+			work = append(work, b.Succs...)
+		}
+		return false
+	}
+	var out []string
+	for _, st := range stores {
+		if only != "" && st.path[0] != only {
+			continue
+		}
+		feeds := map[ssa.Value]bool{}
+		var walk func(v ssa.Value, d int)
+		walk = func(v ssa.Value, d int) {
+			if v == nil || feeds[v] || d > 12 {
+				return
+			}
+			feeds[v] = true
+			if in, ok := v.(ssa.Instruction); ok {
+				for _, op := range in.Operands(nil) {
+					if *op != nil {
+						walk(*op, d+1)
+					}
+				}
+			}
+		}
+		walk(st.in.(*ssa.Store).Val, 0)
+		for _, ld := range loads {
+			if ld.root != st.root || !overlaps(ld.path, st.path) || feeds[ld.in.(ssa.Value)] {
+				continue
+			}
+			if (ld.blk == st.blk && ld.idx < st.idx) || reach(ld.blk, st.blk) {
+				out = append(out, fmt.Sprintf("%s assigned at %s after the read at %s", strings.Join(st.path, "."), P.Pos(st.in.Pos()), P.Pos(ld.in.Pos())))
+				break
+			}
+		}
+	}
+	return out
 }
